@@ -305,6 +305,22 @@ def check(case, obs):
             obs.claim('identities', bool(np.allclose(res['gcv'], np.sqrt(np.exp(np.log(res['gstd']) ** 2) - 1),
                                                      rtol=gt, atol=gt, equal_nan=True)),
                       'GCV != sqrt(exp(ln(GSD)^2)-1)')
+    # 64-bit integers beyond 2**53 (where neighbouring integers share one double): the mode is still one of the most
+    # frequent values, counted exactly
+    if ftype == 'int' and len(cols[0]) >= 2:
+        for dt, base in ((np.int64, 2 ** 53), (np.uint64, 2 ** 63 + 2 ** 53)):
+            wide = np.array([[base + (int(v) % 5) for v in row] for row in cells], dtype=dt)
+            gm = call(FlowCal.stats.mode, wide)
+            okm = not raised(gm) and np.shape(gm) == (wide.shape[1],)
+            if okm:
+                for j in range(wide.shape[1]):
+                    cnt = {}
+                    for v in wide[:, j].tolist():
+                        cnt[v] = cnt.get(v, 0) + 1
+                    okm = okm and cnt.get(int(gm[j]), 0) == max(cnt.values())
+            obs.claim('definition', okm, lambda: 'mode of %s values around %d: %r is not a most frequent value of its channel' % (
+                np.dtype(dt).name, base, gm))
+        obs.label('wide_integers')
     # the statistics describe the values the container holds *now*: overwrite one requested channel in place (with the
     # values of its neighbour) and ask again with the same channel list on the same objects
     if form in ('list', 'list1') and D >= 2 and not case.get('iterator'):
